@@ -48,14 +48,17 @@ func (r *Registry) Register(
 	expect(pluginType.Kind() == reflect.Interface, "plugin type should be interface, but have: %T", pluginType)
 	expect(name != "", "empty name")
 	nameReg := r.typeToNameReg[pluginType]
+	_, ok := nameReg[name]
+	expect(!ok, "plugin %s with name %q had been already registered", pluginType, name)
+	defaultConfig := getNewDefaultConfig(defaultConfigOptional)
+	entry := newNameRegistryEntry(pluginType, constructor, defaultConfig)
+	// Nothing is changed until all expectations are checked: after a failed Register, Lookup still
+	// says that nothing is registered for the type.
 	if nameReg == nil {
 		nameReg = newNameRegistry()
 		r.typeToNameReg[pluginType] = nameReg
 	}
-	_, ok := nameReg[name]
-	expect(!ok, "plugin %s with name %q had been already registered", pluginType, name)
-	defaultConfig := getNewDefaultConfig(defaultConfigOptional)
-	nameReg[name] = newNameRegistryEntry(pluginType, constructor, defaultConfig)
+	nameReg[name] = entry
 }
 
 // Lookup returns true if any plugin constructor has been registered for given
